@@ -14,14 +14,15 @@ Section Bloom.
 (* probe positions as a function of (size, numHashes, element): getIndex(hashes, 0..k-1) *)
 Variable bpos : N -> N -> bytes -> list N.
 
-Record bloom := mkBloom { b_size : N; b_k : N; b_bits : list bool }.
+(* b_bsize is BitSetMem.size (a separate field of the wrapper, written to the stream) *)
+Record bloom := mkBloom { b_size : N; b_k : N; b_bsize : N; b_bits : list bool }.
 
 Definition bloom_positions (s : bloom) (x : bytes) : list N := bpos (b_size s) (b_k s) x.
 
 (* NewBloomFilterWithBitSet applied to an in-memory bitset of length blen *)
 Definition bloom_with_bitset (size k : N) (bits : list bool) (bsize : N) : outcome bloom :=
   if negb (bsize =? size) then Err E_GENERIC
-  else Ok (mkBloom (N.max size 1) (N.max k 1) bits).
+  else Ok (mkBloom (N.max size 1) (N.max k 1) bsize bits).
 
 (* NewMemBloomFilterWithParameters, given the computed (size, numHashes) *)
 Definition bloom_new_params (size0 k0 : N) : outcome bloom :=
@@ -29,10 +30,10 @@ Definition bloom_new_params (size0 k0 : N) : outcome bloom :=
 
 (* NewMemBloomFilterFromBitSet: bit list obtained from the data words (64 per word) *)
 Definition bloom_from_bits (bits : list bool) (k0 : N) : bloom :=
-  mkBloom (N.max (N.of_nat (length bits)) 1) (N.max k0 1) bits.
+  mkBloom (N.max (N.of_nat (length bits)) 1) (N.max k0 1) (N.of_nat (length bits)) bits.
 
 Definition bloom_insert (s : bloom) (x : bytes) : bloom :=
-  mkBloom (b_size s) (b_k s) (fold_left bits_set (bloom_positions s x) (b_bits s)).
+  mkBloom (b_size s) (b_k s) (b_bsize s) (fold_left bits_set (bloom_positions s x) (b_bits s)).
 
 Definition bloom_lookup (s : bloom) (x : bytes) : bool :=
   forallb (bits_test (b_bits s)) (bloom_positions s x).
